@@ -21,9 +21,15 @@ var strAlpha = []string{"a", "B", "1", " ", "\"", "\\", "/", "\b", "\f", "\n", "
 var plainNums = []string{"0", "-0", "1", "-1", "12", "0.5", "-0.0010", "123456789012345678901234567890", "1.50", "0.000", "10.01", "9007199254740993", "-0.0", "0.1000000000000000000000001"}
 var expNums = []string{"1e5", "1E+2", "0.5e-3", "-2E-0", "0e0", "1.0e+00", "12e012"}
 
+// strEdge: code points at the borders of the UTF-8 lengths and of the UTF-16 surrogate halves (the first and
+// the last low half, the first and the last high half), which an escaped spelling has to put together
+var strEdge = []string{"\u0080", "\u07ff", "\u0800", "\ud7ff", "\ue000", "\ufffd", "\uffff",
+	"\U00010000", "\U00010001", "\U000103ff", "\U00010400", "\U0001f400", "\U0001f3ff", "\U0001f7ff", "\U00020000",
+	"\U0010fc00", "\U0010fbff", "\U0010ffff", "\U000ffc00"}
+
 // JSONString draws a string that exercises every escape form.
 func JSONString(t *rapid.T, label string) string {
-	parts := rapid.SliceOfN(rapid.SampledFrom(strAlpha), 0, 4).Draw(t, label)
+	parts := rapid.SliceOfN(rapid.OneOf(rapid.SampledFrom(strAlpha), rapid.SampledFrom(strAlpha), rapid.SampledFrom(strAlpha), rapid.SampledFrom(strEdge)), 0, 4).Draw(t, label)
 	return strings.Join(parts, "")
 }
 
